@@ -244,9 +244,9 @@ BYTE_PARAM_HINTS = ('col_offset', 'colo', 'col_delta', 'dcol')   # naming conven
 ASCII_NAMES = {'quotes', 'op_len'}                                 # lengths of ASCII-only tokens (quotes, operators)
 
 
-def _is_byte_expr(fn, e, depth=0):
+def _is_byte_expr(fn, e, depth=0, visiting=()):
     import ast
-    if depth > 4:
+    if depth > 6:
         return False
     if isinstance(e, ast.Constant) and isinstance(e.value, int):
         return True
@@ -258,6 +258,11 @@ def _is_byte_expr(fn, e, depth=0):
         f = e.func
         if isinstance(f, ast.Attribute) and f.attr == 'c2b':
             return True
+        if isinstance(f, ast.Name) and f.id == 'getattr' and len(e.args) >= 2 and isinstance(e.args[1], ast.Constant) \
+                and e.args[1].value in ('col_offset', 'end_col_offset'):
+            return True
+        if isinstance(f, ast.Name) and f.id == 'bool':
+            return True     # 0 / 1: one ASCII character (a space that is inserted), the same in both units
         if isinstance(f, ast.Name) and f.id == 'len' and e.args:
             a = e.args[0]
             if isinstance(a, ast.Call) and isinstance(a.func, ast.Attribute) and a.func.attr == 'encode':
@@ -266,16 +271,21 @@ def _is_byte_expr(fn, e, depth=0):
                 return True
         return False
     if isinstance(e, ast.BinOp) and isinstance(e.op, (ast.Add, ast.Sub)):
-        return _is_byte_expr(fn, e.left, depth + 1) and _is_byte_expr(fn, e.right, depth + 1)
+        return _is_byte_expr(fn, e.left, depth + 1, visiting) and _is_byte_expr(fn, e.right, depth + 1, visiting)
     if isinstance(e, ast.NamedExpr):
-        return _is_byte_expr(fn, e.value, depth + 1)
+        return _is_byte_expr(fn, e.value, depth + 1, visiting)
     if isinstance(e, ast.UnaryOp) and isinstance(e.op, (ast.USub, ast.UAdd)):
-        return _is_byte_expr(fn, e.operand, depth + 1)
+        return _is_byte_expr(fn, e.operand, depth + 1, visiting)
     if isinstance(e, ast.IfExp):
-        return _is_byte_expr(fn, e.body, depth + 1) and _is_byte_expr(fn, e.orelse, depth + 1)
+        return _is_byte_expr(fn, e.body, depth + 1, visiting) and _is_byte_expr(fn, e.orelse, depth + 1, visiting)
     if isinstance(e, ast.Name):
-        if e.id in ASCII_NAMES or any(h in e.id for h in BYTE_PARAM_HINTS):
+        if e.id in ASCII_NAMES or e.id in visiting:     # x = x + <byte>: inductive in the definitions of x
             return True
+        visiting = visiting + (e.id,)
+        hinted = any(h in e.id for h in BYTE_PARAM_HINTS)
+        params = {a.arg for a in fn.args.posonlyargs + fn.args.args + fn.args.kwonlyargs}
+        if hinted and e.id in params:
+            return True     # naming convention of byte-valued parameters (assumed)
         defs = []
         for n in ast.walk(fn):
             if isinstance(n, ast.Assign):
@@ -286,7 +296,18 @@ def _is_byte_expr(fn, e, depth=0):
                         defs.append(None)
             elif isinstance(n, ast.NamedExpr) and isinstance(n.target, ast.Name) and n.target.id == e.id:
                 defs.append(n.value)
-        return bool(defs) and all(d is not None and _is_byte_expr(fn, d, depth + 1) for d in defs)
+            elif isinstance(n, ast.AugAssign) and isinstance(n.target, ast.Name) and n.target.id == e.id:
+                defs.append(n.value if isinstance(n.op, (ast.Add, ast.Sub)) else None)
+        if hinted:
+            # a LOCAL with a byte-style name is not taken on trust: every definition visible in the function that is an
+            # arithmetic expression over names / attributes / len() / c2b() must be a byte expression; tuple-unpacked,
+            # closure and container-lookup definitions (x.get(..), x[..], other calls) fall back to the naming convention
+            def opaque(d):
+                return d is None or (isinstance(d, ast.Call) and not (isinstance(d.func, ast.Name) and d.func.id == 'len')
+                                     and not (isinstance(d.func, ast.Attribute) and d.func.attr == 'c2b')) \
+                    or isinstance(d, ast.Subscript)
+            return all(opaque(d) or _is_byte_expr(fn, d, depth + 1, visiting) for d in defs)
+        return bool(defs) and all(d is not None and _is_byte_expr(fn, d, depth + 1, visiting) for d in defs)
     return False
 
 
